@@ -1,19 +1,33 @@
-"""C17 — settings acceptance.  Regenerated from /repo on every run:
+"""C17 — settings acceptance.  Regenerated from /repo on every run.
+
+Everything below is read off a SYMBOLIC EXECUTION of the source (tools/optflow.py: names resolved through assignments /
+constants / imports, helper calls followed, every call / raise / store with its path condition), not off statement shapes or
+variable names — so renamed locals and private methods, code moved into helpers, swapped branches, early returns, De Morgan,
+hoisted constants, loops over a literal table … leave the facts unchanged, while a really different behaviour changes them:
 
 * the typed value universe and the guard language (fixed text; the model `ReplicatModel/Settings.lean` builds on them);
-* `adapterTable` — one row per entry of `adapters._adapters` (name, abstract bases reached through the class hierarchy,
-  keyword-only constructor parameters with their defaults, class-level integer constants, and the `if <cond>: raise …`
-  guards at the head of `__init__`, translated into the guard language);
-* the two settings schemas of `_validate_init_settings` / `_validate_add_key_settings`, the `DEFAULT_*_NAME` constants;
-* `initStages` — the order in which `Repository.init` validates, builds the config, instantiates adapters, makes the key,
-  encrypts its private part and UPLOADS the config (read off the statement order of the function body);
-* `addKeyUploads` — whether add_key/_add_key touch the backend with a mutating call;
-* `keyWriteInit`, `keyWriteAddKey` — how the statement under `if key_output_path is not None:` opens the key file
-  (truncating / via rename / in place / appending / exclusive; helpers of `Repository` are followed), and
-  `keyWriteAfterChecks` — that statement comes after the last statement that can refuse the settings.
+* `adapterTable` — one row per class registered in `adapters._adapters` (name, abstract bases reached through the class
+  hierarchy, keyword-only constructor parameters with their defaults, class-level integer constants, and the guards of
+  `__init__`: every `raise` the constructor (or a helper it calls) can reach, with the condition under which it is reached —
+  minus "the earlier guards did not fire" — translated into the guard language in ONE normal form: negations pushed inwards,
+  literal on the right, the earlier-declared parameter on the left, two bounds on one operand = `.chain`, "outside an interval"
+  = `.neg (.chain …)`);
+* the two settings schemas (the dicts `key → type(s)` a validator hands to a method of `self` together with the object they
+  apply to, wherever those dicts are written), that the nested init schema is applied exactly when `settings['encryption']`
+  is not None, and the `DEFAULT_*_NAME` constants;
+* `initStages` — the order in which `Repository.init` validates, builds the config, instantiates adapters, checks the
+  password, makes the key, encrypts its private part and UPLOADS the config.  The private methods are identified by the ROLE
+  they play in the data flow of `init` (see `InitRun`), the upload by the call that reaches `self.backend.upload|…`, "inside
+  `if props.encrypted`" by the path condition;
+* `kindChecks` — `_make_config` raises exactly when `issubclass(<type from adapters.from_config(**<section S>)>, adapters.<B>)`
+  is false → (S, B);
+* `addKeyUploads` — whether add_key (helpers followed) reaches a mutating backend call;
+* `keyWriteInit`, `keyWriteAddKey` — how the calls that happen exactly when a key output path is given open the key file
+  (truncating / via rename / in place / appending / exclusive), and `keyWriteAfterChecks` — they come after the last step
+  that can refuse the settings.
 
-Anything not recognised raises → extract.py records the failure and emits `settingsSectionOk := false` only, so every
-dependent definition in Settings.lean stops compiling (reported as a broken obligation, never assumed).
+Anything not recognised raises → the tables become `opaque` and `settingsRecognised := false`, so every dependent definition
+in Settings.lean stops compiling (reported as a broken obligation, never assumed).
 """
 import ast
 import json
